@@ -1410,6 +1410,15 @@ def run_slice_requests_exhaustive(ctx, reqs, pending):
                                                    site=f'{nm}.get_volume/slice-grid')
                     ctx.case(stream='slicegrid', request_valid=exp[0] is not None, outcome='ok' if st == 'ok' else 'refused',
                              nontrivial_key=('slicegrid', nm, s, e, ai) if st == 'ok' else None)
+    # what is no integer is refused (never truncated or parsed): floats, numeric strings
+    for nm, gv, fv, k2 in objs:
+        for bad in (1.0, 2.5, '1', np.float64(2.0)):
+            for arg in ('slice_start', 'slice_end'):
+                st, val = _fetch(gv, **{arg: bad}, **k2)
+                ctx.case(stream='slicegrid', request_valid=False, outcome='ok' if st == 'ok' else 'refused')
+                if st == 'ok':
+                    ctx.fail({'stream': 'slicegrid', 'object': nm, 'request': {arg: repr(bad)}},
+                             f'a {type(bad).__name__} was accepted as {arg}', site=f'{nm}.get_volume/slice-grid')
     ctx.exhaustive.append(f'get_volume(slice_start, slice_end) on a {n}-slice image and segmentation: all pairs in None or -n-2..n+2, both conventions')
 
 
